@@ -1,23 +1,18 @@
 ST = "statime_h"
 PROP = dict(
     functions=[
-        "statime_csptp::server::handle_packet::<RecSock, RefCell<InternalState>> (private async fn, via hook wrapper; polled with Waker::noop) - thorough tier",
+        "the synchronous steps of statime_csptp::server::handle_packet, called in its order through thin hook wrappers (handle_packet itself: see outside)",
         "statime_csptp::messages::CsptpMessage::{deserialize,is_request,is_response,new_response,new_follow_up,serialize}, CsptpRequestTlv/CsptpResponseTlv/CsptpStatusTlv::{try_from,add_to}",
         "statime_wire::Message::{deserialize,serialize}, TlvSetBuilder, TlvSet iteration (reached from handle_packet)",
     ],
-    bounds="c45_handle: request template Sync + CSPTP request TLV (52 bytes; messageType nibble, messageLength, TLV type and length concrete, the other 46 bytes symbolic: sdoId, version, domain, flags, correctionField, "
-           "sourcePortIdentity, sequenceId, originTimestamp, request flags incl. status bit); c45_handle_other / c45_handle_any: byte strings of symbolic length <= 52 (<= 56 in c45_handle_any_56) whose first octet (sdoId high nibble + messageType) is fixed per run to 0x30 or to one of 11 representatives of the other classes, all other bytes unstructured; "
-           "server state symbolic (grandmaster identity/priorities/quality/stepsRemoved/timescale+traceable flags, leap indicator), reception timestamp symbolic, addresses symbolic, send_event result symbolic (Ok(any timestamp) | Err), send_general result symbolic",
-    outside="first octets other than the 12 representatives (sdoId high nibble other than 0 and 3); serve() loop (shutdown race, socket recv errors); datagrams longer than 56 bytes in the 'answers only requests' direction (requests with more than one extra TLV); nanoseconds fields equal to 10^9 exactly in the template (parser/Timestamp::new disagreement, see report); "
+    bounds="request template Sync + CSPTP request TLV (52 bytes; first octet 0x30, messageLength, TLV type and length concrete, the other 45 bytes symbolic: sdoId low byte, version, domain, flags, correctionField, sourcePortIdentity, sequenceId, originTimestamp, request flags incl. status bit); server state symbolic (grandmaster identity/priorities/quality/stepsRemoved/timescale+traceable flags, leap indicator), reception and send timestamps symbolic; c45_follow_up: request from new_request with symbolic domain and sequence id",
+    outside="handle_packet itself, i.e. the glue between the steps (that the reception timestamp argument, the send_event result and the addresses are the values passed on, that nothing is sent for non-requests): harnesses c45_handle / c45_handle_other / c45_handle_any(_56) (recording in-memory ServerSocket, Waker::noop) are written but NOT registered - 2.8M symbolic-execution steps, CBMC exhausts 8 GB in propositional reduction; the all-in-one synchronous variant c45_messages (1.7M steps) also exhausts 8 GB; first octets other than the 12 representatives (sdoId high nibble other than 0 and 3); serve() loop (shutdown race, socket recv errors); datagrams longer than 56 bytes in the 'answers only requests' direction (requests with more than one extra TLV); nanoseconds fields equal to 10^9 exactly in the template (parser/Timestamp::new disagreement, see report); "
             "status TLV clock-quality bytes (checked: priorities, stepsRemoved, identity, TLV type/length)",
     assumptions=["template request: originTimestamp nanoseconds != 10^9", "reception and send timestamps satisfy the Timestamp::new invariant"],
-    stub_notes=["no stubs; ServerSocket implemented by the harness (records the datagrams and addresses given to send_event/send_general, returns scripted results)"],
+    stub_notes=["no stubs; crate-private CsptpMessage reached through an opaque hook wrapper with one thin wrapper per method"],
     harnesses=[
-        H(ST, "c45", "c45_messages", "the synchronous steps of handle_packet called in its order through thin hook wrappers (CsptpMessage::deserialize, is_request, new_response, serialize, new_follow_up, serialize) on the template request: same echo checks on the produced bytes", timeout=600),
-        H(ST, "c45", "c45_handle", "template request: answered iff sdoId 0x300 / PTP version 2 / valid timestamp; response echoes domain, sequence id, correctionField -> reqCorrectionField, reception time -> reqIngressTimestamp, two-step+unicast flags, leap flags, status TLV iff requested; "
-                                   "follow-up iff send_event succeeded, carrying its timestamp; addresses swapped correctly", tier="thorough", timeout_thorough=1800),
-        H(ST, "c45", "c45_handle_other", "first octet in {nine non-Sync types, an undefined type} under sdoId 0x3xx and Sync under a foreign sdoId, remaining <= 51 bytes unstructured: never answered", tier="thorough", timeout_thorough=1800),
-        H(ST, "c45", "c45_handle_any", "first octet 0x30 (CSPTP Sync), remaining <= 51 bytes unstructured (messageLength, TLV chain): anything sent => raw datagram is a PTPv2 Sync with sdoId 0x300 carrying a CSPTP request TLV inside messageLength; same echo checks", tier="thorough", timeout_thorough=1800),
-        H(ST, "c45", "c45_handle_any_56", "the same with <= 55 unstructured bytes", tier="thorough", timeout_thorough=1800),
+        H(ST, "c45", "c45_response", "steps 1-3 of handle_packet through thin hook wrappers (CsptpMessage::deserialize, is_request, new_response) on the template request: parsed iff sdoId 0x300 / PTP version 2 / valid timestamp; response echoes domain, sequence id, "
+                                     "correctionField -> reqCorrectionField, reception time -> reqIngressTimestamp; two-step + unicast flags, leap and traceability flags from the server state, status TLV iff requested (priorities, stepsRemoved, identity)", timeout=1200),
+        H(ST, "c45", "c45_follow_up", "steps 4-6: new_follow_up on a two-step response (request built by new_request with symbolic domain/sequence id), serialised: Follow_Up, 44 bytes, echoes domain and sequence id, preciseOriginTimestamp = the send time; no follow-up for a one-step response", timeout=900),
     ],
 )
